@@ -47,3 +47,15 @@ let split_ws (s : string) : string list =
 let read_lines () : string list =
   let rec go acc = match input_line stdin with l -> go (l :: acc) | exception End_of_file -> List.rev acc in
   go []
+
+(* per-case evaluation budget for models without sharing (tree layer): [with_budget id f] runs f;
+   if it needs more than DRIVER_CASE_SECONDS (default 20) or overflows the stack, the line
+   "<id> MODEL_TIMEOUT" is printed instead, which ./check counts as a skipped case *)
+exception Case_timeout
+let case_budget = try int_of_string (Sys.getenv "DRIVER_CASE_SECONDS") with _ -> 20
+let with_budget (id : string) (f : unit -> unit) : unit =
+  Sys.set_signal Sys.sigalrm (Sys.Signal_handle (fun _ -> raise Case_timeout));
+  ignore (Unix.alarm case_budget);
+  (try f (); ignore (Unix.alarm 0) with
+   | Case_timeout -> print_endline (id ^ " MODEL_TIMEOUT")
+   | Stack_overflow | Out_of_memory -> ignore (Unix.alarm 0); print_endline (id ^ " MODEL_TIMEOUT"))
